@@ -372,6 +372,8 @@ def random_world(rng, algs=None):
     def pin(el, signed_by_twin_ok):
         s = el['kl']
         kind = rng.choice(['p', 'p', 'w', 'y', 'ysubst', 'k'] if signed_by_twin_ok else ['p', 'p', 'w', 'ysubst', 'k'])
+        if kind == 'k' and s in twin:
+            s = twin[s]                         # the two certificates of one key name have one key name
         n = s + kind[0]
         undo = (dict(el), n in alias, n in certs, n in shape)
         if n not in alias:
